@@ -3,48 +3,49 @@ import DarkluaModel.Shared.VisitorSound.Heap.R3
 # Fundamental theorem of `HR`, call levels, observable outcomes
 -/
 namespace DarkluaModel.Sem.Heap
+variable {cx : Cx}
 
-def HSound (Q : QRel) : List String → Node → Node → List String → Prop
-  | D, .e x, .e y, _ => SoundE Q D x y
-  | D, .t x, .t y, _ => SoundT Q D x y
-  | D, .es x, .es y, _ => SoundEs Q D x y
-  | D, .ts x, .ts y, _ => SoundTs Q D x y
-  | D, .elifs x, .elifs y, _ => SoundElifs Q D x y
-  | D, .entries x, .entries y, _ => SoundEntries Q D x y
-  | D, .segs x, .segs y, _ => SoundSegs Q D x y
-  | D, .s x, .s y, _ => SoundS Q D x y
-  | D, .ss x, .ss y, D' => SoundSs Q D x y D'
-  | D, .branches x, .branches y, _ => SoundBranches Q D x y
-  | D, .l x, .l y, _ => SoundL Q D x y
-  | D, .b x, .b y, D' => SoundB Q D x y D'
-  | D, .rep b c, .rep b' c', _ => SoundRep Q D b c b' c'
+def HSound (Q : QRel) (cx : Cx) : List String → Node → Node → List String → Prop
+  | D, .e x, .e y, _ => SoundE Q cx D x y
+  | D, .t x, .t y, _ => SoundT Q cx D x y
+  | D, .es x, .es y, _ => SoundEs Q cx D x y
+  | D, .ts x, .ts y, _ => SoundTs Q cx D x y
+  | D, .elifs x, .elifs y, _ => SoundElifs Q cx D x y
+  | D, .entries x, .entries y, _ => SoundEntries Q cx D x y
+  | D, .segs x, .segs y, _ => SoundSegs Q cx D x y
+  | D, .s x, .s y, _ => SoundS Q cx D x y
+  | D, .ss x, .ss y, D' => SoundSs Q cx D x y D'
+  | D, .branches x, .branches y, _ => SoundBranches Q cx D x y
+  | D, .l x, .l y, _ => SoundL Q cx D x y
+  | D, .b x, .b y, D' => SoundB Q cx D x y D'
+  | D, .rep b c, .rep b' c', _ => SoundRep Q cx D b c b' c'
   | _, _, _, _ => True
 
-theorem HQ_refl : QRefl HQ := by
+theorem HQ_refl : QRefl cx (HQ cx) := by
   intro D f h
   cases f with
   | mk ps v vt r g a b => exact .fnBody rfl (.genB fun Q hq => reflB hq b D (NoRefF.mk.mp h))
 
-theorem HR.es_nil_iff {D xs xs' D'} (h : HR D (.es xs) (.es xs') D') : xs = [] ↔ xs' = [] := by
+theorem HR.es_nil_iff {D xs xs' D'} (h : HR cx D (.es xs) (.es xs') D') : xs = [] ↔ xs' = [] := by
   cases h <;> simp
 
-theorem HR.entries_nil_iff {D xs xs' D'} (h : HR D (.entries xs) (.entries xs') D') : xs = [] ↔ xs' = [] := by
+theorem HR.entries_nil_iff {D xs xs' D'} (h : HR cx D (.entries xs) (.entries xs') D') : xs = [] ↔ xs' = [] := by
   cases h <;> simp
 
-theorem fund {D a b D'} (h : HR D a b D') : HSound HQ D a b D' := by
+theorem fund {D a b D'} (h : HR cx D a b D') : HSound (HQ cx) cx D a b D' := by
   induction h with
   | stepE h _ ih => exact SoundE.step h ih
   | stepT h _ ih => exact SoundT.step h ih
   | stepS h _ ih => exact SoundS.step h ih
   | stepL h _ ih => exact SoundL.step h ih
   | stepB h _ ih => exact SoundB.step h ih
-  | genE h => exact h HQ HQ_refl
-  | genT h => exact h HQ HQ_refl
-  | genS h => exact h HQ HQ_refl
-  | genSs h => exact h HQ HQ_refl
-  | genL h => exact h HQ HQ_refl
-  | genB h => exact h HQ HQ_refl
-  | genRep h => exact h HQ HQ_refl
+  | genE h => exact h (HQ cx) HQ_refl
+  | genT h => exact h (HQ cx) HQ_refl
+  | genS h => exact h (HQ cx) HQ_refl
+  | genSs h => exact h (HQ cx) HQ_refl
+  | genL h => exact h (HQ cx) HQ_refl
+  | genB h => exact h (HQ cx) HQ_refl
+  | genRep h => exact h (HQ cx) HQ_refl
   | dropLocal hp _ ih => exact dropLocal_sound hp ih
   | addLocal hp _ ih => exact addLocal_sound hp ih
   | paren _ ih => exact SoundE.paren ih
@@ -53,7 +54,7 @@ theorem fund {D a b D'} (h : HR D a b D') : HSound HQ D a b D' := by
   | call _ _ ih1 ih2 => exact SoundE.call ih1 ih2
   | field _ ih => exact SoundE.field ih
   | index _ _ ih1 ih2 => exact SoundE.index ih1 ih2
-  | fn h _ => exact SoundE.fn (Q := HQ) h
+  | fn h _ => exact SoundE.fn (Q := HQ cx) h
   | table _ ih => exact SoundE.table ih
   | ifx _ _ _ _ ih1 ih2 ih3 ih4 => exact SoundE.ifx ih1 ih2 ih3 ih4
   | interp _ ih => exact SoundE.interp ih
@@ -80,14 +81,14 @@ theorem fund {D a b D'} (h : HR D a b D') : HSound HQ D a b D' := by
   | cassign _ _ ih1 ih2 => exact SoundS.cassign ih1 ih2
   | callStmt _ ih => exact SoundS.callStmt ih
   | doBlock _ ih => exact SoundS.doBlock ih
-  | function hr h _ => exact SoundS.function (Q := HQ) hr h
+  | function hr h _ => exact SoundS.function (Q := HQ cx) hr h
   | gfor hn _ _ ih1 ih2 => exact SoundS.gfor hn ih1 ih2
   | nforNone hn _ _ _ ih1 ih2 ih3 => exact SoundS.nforNone hn ih1 ih2 ih3
   | nforSome hn _ _ _ _ ih1 ih2 ih3 ih4 => exact SoundS.nforSome hn ih1 ih2 ih3 ih4
   | ifsNone _ ih => exact SoundS.ifsNone ih
   | ifsSome _ _ ih1 ih2 => exact SoundS.ifsSome ih1 ih2
   | localAssign hn _ ih => exact SoundS.localAssign hn ih
-  | localFn h _ => exact SoundS.localFn (Q := HQ) h
+  | localFn h _ => exact SoundS.localFn (Q := HQ cx) h
   | rep _ _ ih1 ih2 => exact SoundRep.mk ih1 ih2
   | repeat_ _ ih => exact SoundS.repeat_ ih
   | while_ _ _ ih1 ih2 => exact SoundS.while_ ih1 ih2
@@ -101,13 +102,13 @@ theorem fund {D a b D'} (h : HR D a b D') : HSound HQ D a b D' := by
   | blockNone _ ih => exact SoundB.none ih
   | blockSome _ _ ih1 ih2 => exact SoundB.some ih1 ih2
 
-theorem fundB {D b b' D'} (h : HR D (.b b) (.b b') D') : SoundB HQ D b b' D' := fund h
+theorem fundB {D b b' D'} (h : HR cx D (.b b) (.b b') D') : SoundB (HQ cx) cx D b b' D' := fund h
 
 /-! ### call levels -/
 
 theorem RRel.retWrap {N : NumOps} {Q : QRel} {β : CellRel} {D' : List String} {r r' : Res N (Ctl N)} :
-    RRel Q β (ACtl D') r r' →
-    RRel Q β AEq (match r with
+    RRel Q cx β (ACtl cx D') r r' →
+    RRel Q cx β AEq (match r with
         | .ok (.ret vs) σ2 => (Res.ok vs σ2 : Res N (List (Val N)))
         | .ok _ σ2 => .ok [] σ2
         | .err v σ2 => .err v σ2
@@ -130,7 +131,7 @@ theorem RRel.retWrap {N : NumOps} {Q : QRel} {β : CellRel} {D' : List String} {
     exact RRel.mono hle (RRel.err h)
   · exact RRel.timeout
 
-theorem callClosure_ok {N : NumOps} (ρ : ExtOracle N) : ∀ n, CallOK HQ (callClosure ρ n)
+theorem callClosure_ok {N : NumOps} (ρ : ExtOracle N) : ∀ n, CallOK (HQ cx) cx (callClosure ρ n)
   | 0 => fun _ _ _ _ _ _ _ _ => RRel.timeout
   | n + 1 => by
     intro β c c' args σ σ' hcc hs
@@ -150,7 +151,7 @@ theorem callClosure_ok {N : NumOps} (ρ : ExtOracle N) : ∀ n, CallOK HQ (callC
 def emptyRel : CellRel := fun _ _ => False
 
 theorem SRel.init {N : NumOps} (externs : List String) :
-    SRel HQ emptyRel (initState externs : State N) (initState externs) where
+    SRel (HQ cx) cx emptyRel (initState externs : State N) (initState externs) where
   globals := rfl
   tables := rfl
   trace := rfl
@@ -160,14 +161,14 @@ theorem SRel.init {N : NumOps} (externs : List String) :
   closures := .nil
 
 theorem runChunk_rel {N : NumOps} (ρ : ExtOracle N) (n : Nat) {b b' : Block} {D' : List String}
-    (h : HR [] (.b b) (.b b') D') {β : CellRel} {σ σ' : State N} (hs : SRel HQ β σ σ') :
-    RRel HQ β AEq (runChunk ρ n b σ) (runChunk ρ n b' σ') := by
+    (h : HR cx [] (.b b) (.b b') D') {β : CellRel} {σ σ' : State N} (hs : SRel (HQ cx) cx β σ σ') :
+    RRel (HQ cx) cx β AEq (runChunk ρ n b σ) (runChunk ρ n b' σ') := by
   unfold runChunk
   refine RRel.retWrap ((fundB h).2 N _ ρ n _ _ _ _ _ (callClosure_ok ρ n) hs ⟨rfl, ?_⟩)
   intro m _
   simp only [lookupAssoc, OptRel]
 
-theorem observe_rel {N : NumOps} {β : CellRel} {r r' : Res N (List (Val N))} (h : RRel HQ β AEq r r') :
+theorem observe_rel {N : NumOps} {β : CellRel} {r r' : Res N (List (Val N))} (h : RRel (HQ cx) cx β AEq r r') :
     observe r' = observe r := by
   cases r <;> cases r' <;> simp only [RRel] at h
   · obtain ⟨β1, _, ha, hs⟩ := h
@@ -183,7 +184,7 @@ theorem observe_rel {N : NumOps} {β : CellRel} {r r' : Res N (List (Val N))} (h
 outcome (returned canonical values / raised value, trace of external calls) for every number
 model, oracle, call level and extern list. -/
 theorem runProgram_hr {N : NumOps} (ρ : ExtOracle N) (n : Nat) (externs : List String) {b b' : Block}
-    {D' : List String} (h : HR [] (.b b) (.b b') D') : runProgram ρ n externs b' = runProgram ρ n externs b :=
+    {D' : List String} (h : HR cx [] (.b b) (.b b') D') : runProgram ρ n externs b' = runProgram ρ n externs b :=
   observe_rel (runChunk_rel ρ n h (SRel.init externs))
 
 end DarkluaModel.Sem.Heap
